@@ -842,9 +842,10 @@ def rule_filter(ctx):
             if isinstance(n, ast.If) and isinstance(n.test, ast.Compare) and isinstance(n.test.left, ast.Name) and n.test.left.id == "threshold" \
                     and isinstance(n.test.ops[0], (ast.Is, ast.IsNot)):
                 none_branch = n.body if isinstance(n.test.ops[0], ast.Is) else n.orelse
-                for s in none_branch:
-                    if isinstance(s, ast.Assign) and isinstance(s.targets[0], ast.Name) and s.targets[0].id == "threshold":
-                        forms.append((meth, s, _default_threshold_ok(s.value)))
+                for st_ in none_branch:
+                    for s in ast.walk(st_):
+                        if isinstance(s, ast.Assign) and isinstance(s.targets[0], ast.Name) and s.targets[0].id == "threshold":
+                            forms.append((meth, s, _default_threshold_ok(s.value, cls)))
     for meth, s, okk in forms:
         ctx.ob("filter", meth, s, "threshold = %s" % unparse(s.value), "default threshold is floor(phi * n_added()) as uint32", okk,
                "" if okk else "default threshold is not uint32(self.phi * self.n_added())")
@@ -853,7 +854,13 @@ def rule_filter(ctx):
                "found %d default-threshold assignments" % len(forms))
 
 
-def _default_threshold_ok(node):
+def _default_threshold_ok(node, cls=None):
+    # a zero-argument helper method: every return of it must have the accepted form
+    if cls is not None and isinstance(node, ast.Call) and not node.args and not node.keywords and (dotted(node.func) or "").startswith("self."):
+        h = cls.resolve(dotted(node.func)[5:])
+        if h is not None and h.name not in ("n_added", "n_records"):
+            rets = [n for n in walk_no_nested(h.node) if isinstance(n, ast.Return)]
+            return bool(rets) and all(_default_threshold_ok(r.value) for r in rets)
     if not (isinstance(node, ast.Call) and dotted(node.func) in ("np.uint32", "uint32", "numpy.uint32") and len(node.args) == 1):
         return False
     a = node.args[0]
